@@ -1,5 +1,5 @@
-\* C15 thorough bound: three distinct file timestamps (request timestamps 1..4), TXIDs 1..4, <= 3 files.
-\* The runner rewrites `Part = 0` for every shard 0..Parts-1 (one TLC process each, several workers: Fanout).
+\* C15 thorough, timestamp requests T in 1..4: TXIDs 1..4, <= 3 files, file timestamps 1..3.
+\* The runner rewrites `Part = 0` for every shard 0..Parts-1 (one TLC process each; Fanout: several workers per process).
 SPECIFICATION Spec
 CONSTANTS
   N = 4
@@ -9,5 +9,6 @@ CONSTANTS
   Part = 0
   Parts = 1
   Fanout = TRUE
-INVARIANTS TsExcluded TsFurthest TsMonotone Sound CompleteLatest
+  TsOnly = TRUE
+INVARIANTS Sound CompleteTx CompleteLatest GapReported FurthestLatest TsExcluded TsFurthest TsMonotone ErrKinds
 CHECK_DEADLOCK FALSE
